@@ -39,6 +39,21 @@ partial def loopLedger (h : IO.FS.Stream) (st : LedgerDrv.St) (n : Nat) : IO Led
     loopLedger h st' (n + 1)
   | none => loopLedger h st' (n + 1)
 
+partial def loopAwait (h : IO.FS.Stream) (st : AwaitCache.Store) (stats : Stats) (n : Nat) : IO Stats := do
+  let line ← h.getLine
+  if line.isEmpty then return stats
+  let l := line.trimAscii.toString
+  if l.isEmpty || l.startsWith "#" || l.startsWith "H " || l.startsWith "A " then loopAwait h st stats (n + 1) else
+  if l == "RESET" then loopAwait h {} stats (n + 1) else
+  match AwaitDrv.step st l with
+  | none =>
+    IO.println s!"BADLINE {n} | {l}"
+    loopAwait h st { stats with lines := stats.lines + 1, bad := stats.bad + 1 } (n + 1)
+  | some (st', br, none) => loopAwait h st' ({ stats with lines := stats.lines + 1 }.hit br) (n + 1)
+  | some (st', br, some out) =>
+    if stats.mismatches < 20 then IO.println s!"MISMATCH {n} | {l} | model: {out}"
+    loopAwait h st' ({ stats with lines := stats.lines + 1, mismatches := stats.mismatches + 1 }.hit br) (n + 1)
+
 def printSummary (st : Stats) : IO Unit := do
   let br := st.branches.map fun (k, n) => s!"{k}={n}"
   IO.println s!"SUMMARY lines={st.lines} mismatches={st.mismatches} bad={st.bad} branches={" ".intercalate br}"
@@ -52,6 +67,10 @@ def main (args : List String) : IO UInt32 := do
     printSummary st
     return (if st.mismatches == 0 && st.bad == 0 then 0 else 1)
   | none =>
+    if sec == "await" then
+      let st ← loopAwait stdin {} {} 1
+      printSummary st
+      return (if st.mismatches == 0 && st.bad == 0 then 0 else 1)
     if sec == "ledger" then
       let st ← loopLedger stdin {} 1
       IO.println s!"SKIPPED {st.skipped}"
